@@ -34,7 +34,9 @@ import (
 	"github.com/attestantio/vouch/services/blockrelay"
 	standardblockrelay "github.com/attestantio/vouch/services/blockrelay/standard"
 	nullmetrics "github.com/attestantio/vouch/services/metrics/null"
+	"github.com/attestantio/vouch/strategies/builderbid"
 	bestbuilderbid "github.com/attestantio/vouch/strategies/builderbid/best"
+	deadlinebuilderbid "github.com/attestantio/vouch/strategies/builderbid/deadline"
 	"github.com/attestantio/vouch/verifsupport"
 	"github.com/spf13/viper"
 	e2wtypes "github.com/wealdtech/go-eth2-wallet-types/v2"
@@ -156,6 +158,9 @@ type c16Svc struct {
 	sched    *verifsupport.Scheduler
 	source   *c16ConfigSource
 	relay    *c16Server
+	polls    *c16Polls // what the relay answers to the successive polls of an auction (per slot asked for)
+	clock    *c16SlotClock
+	strat    string // the builder-bid strategy wired behind the service, as main.go's selectBuilderBidProvider does
 	gate     *c16Gate
 	fallback bellatrix.ExecutionAddress
 }
@@ -196,13 +201,17 @@ func (g *c16Svc) settle(ctx context.Context) {
 
 // c16NewSvc builds the service; content computes what the configuration source holds when New() makes
 // its initial fetch (the relay's URL, which the valid documents name, is only known once it listens).
-func c16NewSvc(ctx context.Context, sourceKind string, content func(*c16Svc) (string, bool)) *c16Svc {
+func c16NewSvc(ctx context.Context, sourceKind string, stratKind string, content func(*c16Svc) (string, bool)) *c16Svc {
 	viper.Set("timeout", 2*time.Second)
-	g := &c16Svc{accounts: &c16SvcAccounts{}, sched: verifsupport.NewScheduler(), source: c16NewConfigSource(sourceKind), relay: c16NewServer(), gate: &c16Gate{}}
+	if stratKind == "" {
+		stratKind = "best"
+	}
+	g := &c16Svc{accounts: &c16SvcAccounts{}, sched: verifsupport.NewScheduler(), source: c16NewConfigSource(sourceKind), relay: c16NewServer(), gate: &c16Gate{},
+		clock: c16NewSlotClock(), strat: stratKind}
 	g.fallback[0] = 0xfa
-	ct := c16NowChainTime()
-	sk := c16RelayKey(1)
-	g.relay.Set("/eth/v1/builder/header/", c16BidAnswer("valid", ct, sk, sk))
+	ct := g.clock
+	g.polls = c16NewPolls("relay1", c16RelayKey(1), g.clock)
+	g.relay.Set("/eth/v1/builder/header/", g.polls.Answer())
 	g.relay.Gate("/eth/v1/builder/header/", g.gate)
 	g.relay.Set("/eth/v1/builder/validators", c16Answer{Status: 200, Body: ``})
 	g.relay.Set("/eth/v1/builder/status", c16Answer{Status: 200, Body: ``})
@@ -226,15 +235,33 @@ func c16NewSvc(ctx context.Context, sourceKind string, content func(*c16Svc) (st
 		panic("c16 harness: " + err.Error())
 	}
 
-	strat, err := bestbuilderbid.New(ctx,
-		bestbuilderbid.WithLogLevel(c16LogLevel()),
-		bestbuilderbid.WithMonitor(nullmetrics.New()),
-		bestbuilderbid.WithSpecProvider(mock.NewSpecProvider()),
-		bestbuilderbid.WithDomainProvider(mock.NewDomainProvider()),
-		bestbuilderbid.WithChainTime(ct),
-		bestbuilderbid.WithTimeout(300*time.Millisecond),
-		bestbuilderbid.WithReleaseVersion("verif"),
-	)
+	var strat builderbid.Provider
+	switch stratKind {
+	case "best":
+		strat, err = bestbuilderbid.New(ctx,
+			bestbuilderbid.WithLogLevel(c16LogLevel()),
+			bestbuilderbid.WithMonitor(nullmetrics.New()),
+			bestbuilderbid.WithSpecProvider(mock.NewSpecProvider()),
+			bestbuilderbid.WithDomainProvider(mock.NewDomainProvider()),
+			bestbuilderbid.WithChainTime(ct),
+			bestbuilderbid.WithTimeout(300*time.Millisecond),
+			bestbuilderbid.WithReleaseVersion("verif"),
+		)
+	case "deadline":
+		// the sibling main.go selects with strategies.builderbid.style: deadline
+		strat, err = deadlinebuilderbid.New(ctx,
+			deadlinebuilderbid.WithLogLevel(c16LogLevel()),
+			deadlinebuilderbid.WithMonitor(nullmetrics.New()),
+			deadlinebuilderbid.WithSpecProvider(mock.NewSpecProvider()),
+			deadlinebuilderbid.WithDomainProvider(mock.NewDomainProvider()),
+			deadlinebuilderbid.WithChainTime(ct),
+			deadlinebuilderbid.WithDeadline(250*time.Millisecond),
+			deadlinebuilderbid.WithBidGap(100*time.Millisecond),
+			deadlinebuilderbid.WithReleaseVersion("verif"),
+		)
+	default:
+		panic("c16 harness: unknown builder bid strategy " + stratKind)
+	}
 	if err != nil {
 		panic("c16 harness: builder bid strategy: " + err.Error())
 	}
@@ -324,8 +351,14 @@ func (g *c16Svc) register(ctx context.Context) c16Res {
 // auction: AuctionBlock for a controlled validator, then what the beacon node asks the builder-bid
 // endpoint (the cached bid; an immediate auction for a validator Vouch does not control).
 func (g *c16Svc) auction(ctx context.Context, slot phase0.Slot) c16Res {
+	grace := 20 * time.Millisecond // goroutines of the strategy still decoding an answer
+	if g.strat == "deadline" {
+		grace = 150 * time.Millisecond // ... or making their last poll and writing their end-of-auction report
+	}
+	g.polls.Attach(ctx, slot)
+	g.clock.Begin(slot) // proposals are made when their slot starts
 	res, err := g.s.AuctionBlock(ctx, slot, c16ParentHash, c16AccountPubkey(1))
-	time.Sleep(20 * time.Millisecond) // goroutines of the strategy still decoding an answer
+	time.Sleep(grace)
 	if err != nil {
 		return c16Err(err.Error())
 	}
@@ -344,7 +377,7 @@ func (g *c16Svc) auction(ctx context.Context, slot phase0.Slot) c16Res {
 	if _, err := g.s.BuilderBid(ctx, slot, c16ParentHash, c16OtherPubkey()); err != nil {
 		return c16Err("immediate bid: " + err.Error())
 	}
-	time.Sleep(20 * time.Millisecond)
+	time.Sleep(grace)
 	if res.WinningParticipation == nil {
 		return c16Fallback(fmt.Sprintf("no winning bid (%d relay(s) usable): local block", len(res.AllProviders)))
 	}
@@ -369,7 +402,7 @@ func (in *c16SvcInst) content(sh map[string]string) (string, bool) {
 
 func c16NewSvcInst(ctx context.Context, first map[string]string) c16Instance {
 	in := &c16SvcInst{first: first}
-	in.g = c16NewSvc(ctx, first["source"], func(g *c16Svc) (string, bool) {
+	in.g = c16NewSvc(ctx, first["source"], first["strat"], func(g *c16Svc) (string, bool) {
 		in.g = g
 		if first["prior"] == "none" {
 			// the document of the first call is what the service finds when it starts
@@ -389,6 +422,7 @@ func (in *c16SvcInst) Prepare(_ int, _ map[string]string) {}
 
 func (in *c16SvcInst) Invoke(ctx context.Context, k int, sh map[string]string) c16Res {
 	g := in.g
+	g.polls.Script(c16CallSlot(k), c16PollSeq(sh))
 	fetch := func() { g.sched.Fire(ctx, g.job("Fetch execution configuration")) }
 	switch {
 	case k == 1 && sh["prior"] == "none":
